@@ -6,6 +6,7 @@ package main
 import (
 	"fmt"
 	"os"
+	"runtime/pprof"
 	"strconv"
 	"time"
 
@@ -15,6 +16,11 @@ import (
 
 func main() {
 	r := report.New("C03", "exploration")
+	if pf := os.Getenv("NETSIM_PPROF"); pf != "" {
+		f, _ := os.Create(pf)
+		pprof.StartCPUProfile(f)
+		defer pprof.StopCPUProfile()
+	}
 	b := 2
 	if r.Thorough() {
 		b = 3
@@ -58,6 +64,7 @@ func main() {
 	netsim.RunScenarios(r, scen, netsim.Options{Prop: "C03", Rules: []string{"C03"}, Deadline: dl})
 	r.Set("rule", "every execution of the netsim harness (real ConsensusState x N, Byzantine validator held by the explorer) with at most `completed_bound` deviations from the synchronous schedule; "+
 		"a case is an execution; non-trivial = ran to a terminal outcome (not cut by state-key pruning)")
+	pprof.StopCPUProfile()
 	r.Finish()
 }
 
